@@ -42,6 +42,21 @@ func main() {
 			r.Violation("race/"+site, "the race detector reports a data race in a free-running execution: "+strings.TrimSpace(rep), rep)
 		}
 	}
+	// the watchdog lines of the pass itself (argument 5: its output)
+	if len(os.Args) > 5 {
+		if b, err := os.ReadFile(os.Args[5]); err == nil {
+			for _, l := range strings.Split(string(b), "\n") {
+				if strings.HasPrefix(l, "RACEPASS-DEADLOCK ") {
+					site := l[strings.Index(l, "sites=")+6:]
+					r.Violation("freerun/lock-deadlock/"+site,
+						"a free-running execution with the real sync types stopped for good with several goroutines of the connection waiting for mutexes (same goroutines, same places, in two stack dumps 3 s apart): "+l, l)
+				}
+				if strings.HasPrefix(l, "RACEPASS-TIMEOUT ") {
+					r.NotExhaustive("free-running pass: " + l + " (a run exceeded the 90 s watchdog without a recognisable lock cycle; pass cut short)")
+				}
+			}
+		}
+	}
 	r.Set("evaluations", int64(runs))
 	r.Set("distinct_nontrivial", int64(scen))
 	r.Set("race_reports", reports)
